@@ -179,7 +179,7 @@ func streamC14(h *H) {
 	c11InstallIndexFull()
 	root := MkTemp("c14-")
 	defer os.RemoveAll(root)
-	n := h.N(12, 1200)
+	n := h.N(24, 1500)
 	for i := 0; i < n; i++ {
 		c14Scenario(h, root, i)
 	}
@@ -255,39 +255,45 @@ func c14Scenario(h *H, root string, si int) {
 		res        CmdResult
 	}
 	var rruns []rrun
+	var rmu sync.Mutex
 	order := h.Rng.Perm(len(readers))
-	startDelay := h.Intn(80)
-	rdone := make(chan struct{})
-	go func() {
-		defer close(rdone)
-		time.Sleep(time.Duration(startDelay) * time.Millisecond)
-		for i := 0; ; i++ {
-			last := sched.activeWriters() == 0
-			rd := readers[order[i%len(order)]]
-			proc := fmt.Sprintf("r%d", i)
-			tmp, _ := os.MkdirTemp(dir, "rst-")
-			cli := NewCLI(&c14Backend{Backend: be, s: sched, proc: proc, reader: true})
-			// `diff` and `cat tree` take explicit ids: the newest snapshot file there is right now
-			newest := olds[0]
-			for _, id := range c26SnapshotIDs(be) {
-				if !has(olds, id) {
-					newest = id
+	startDelay := []int{h.Intn(40), 20 + h.Intn(80)}
+	var rwg sync.WaitGroup
+	for li := 0; li < 2; li++ { // two reader loops side by side
+		rwg.Add(1)
+		go func(li int) {
+			defer rwg.Done()
+			time.Sleep(time.Duration(startDelay[li]) * time.Millisecond)
+			for i := 0; ; i++ {
+				last := sched.activeWriters() == 0
+				rd := readers[order[(i*2+li)%len(order)]]
+				proc := fmt.Sprintf("r%c%d", 'a'+li, i)
+				tmp, _ := os.MkdirTemp(dir, "rst-")
+				cli := NewCLI(&c14Backend{Backend: be, s: sched, proc: proc, reader: true})
+				// `diff` and `cat tree` take explicit ids: the newest snapshot file there is right now
+				newest := olds[0]
+				for _, id := range c26SnapshotIDs(be) {
+					if !has(olds, id) {
+						newest = id
+					}
+				}
+				res := cli.RunCtx(ctx, rd.args(olds, newest, tmp)...)
+				res.Stdout = ""
+				if res.Err != nil {
+					res.Stderr = res.Err.Error() + " | " + firstLine(res.Stderr)
+				}
+				os.RemoveAll(tmp)
+				rmu.Lock()
+				rruns = append(rruns, rrun{proc, rd.name, res})
+				rmu.Unlock()
+				if last || ctx.Err() != nil || i > 30 {
+					return
 				}
 			}
-			res := cli.RunCtx(ctx, rd.args(olds, newest, tmp)...)
-			res.Stdout = ""
-			if res.Err != nil {
-				res.Stderr = res.Err.Error() + " | " + firstLine(res.Stderr)
-			}
-			os.RemoveAll(tmp)
-			rruns = append(rruns, rrun{proc, rd.name, res})
-			if last || ctx.Err() != nil || i > 40 {
-				return
-			}
-		}
-	}()
+		}(li)
+	}
 	wg.Wait()
-	<-rdone
+	rwg.Wait()
 
 	in := newA12Intern()
 	h.Case("concurrent")
